@@ -377,14 +377,14 @@ def classify(case):
 
 
 SUBCHECKS = [
-    Subcheck("sphdist_value", value_cases, check_sphdist_value, classify, quick=2000, thorough=80000,
+    Subcheck("sphdist_value", value_cases, check_sphdist_value, classify, quick=4000, thorough=80000,
              journal=False),
-    Subcheck("sphdist_shift", shift_cases, check_sphdist_shift, classify, quick=800, thorough=30000,
+    Subcheck("sphdist_shift", shift_cases, check_sphdist_shift, classify, quick=1600, thorough=30000,
              journal=False),
-    Subcheck("sphdist_containers", container_cases, check_sphdist_containers, classify, quick=1000,
+    Subcheck("sphdist_containers", container_cases, check_sphdist_containers, classify, quick=2000,
              thorough=20000, journal=False),
-    Subcheck("gcirc_value", lambda: value_cases(True), check_gcirc_value, classify, quick=1200, thorough=60000,
+    Subcheck("gcirc_value", lambda: value_cases(True), check_gcirc_value, classify, quick=2400, thorough=60000,
              journal=False),
-    Subcheck("gcirc_containers", lambda: container_cases(True), check_gcirc_containers, classify, quick=500,
+    Subcheck("gcirc_containers", lambda: container_cases(True), check_gcirc_containers, classify, quick=1000,
              thorough=10000, journal=False),
 ]
